@@ -99,10 +99,21 @@ def main():
                 shutil.rmtree(os.path.join(V, "build", d), ignore_errors=True)
     dst = os.path.join(V, "seeded", name)
     os.makedirs(dst, exist_ok=True)
+    # keep what earlier evaluations established about the same patch (pinned-suite result, checks not re-run now)
+    try:
+        old = json.load(open(os.path.join(dst, "meta.json")))
+        for k, v in old.get("steps", {}).items():
+            if k.startswith("baseline") and k not in meta["steps"]:
+                meta["steps"][k] = v
+        for k, v in old.get("checks", {}).items():
+            if k not in meta["checks"]:
+                meta["checks"][k] = dict(v, evaluated_at_repo_head=old.get("evaluated_at_repo_head"))
+    except Exception:
+        pass
     for f in os.listdir(src):
         if f.endswith(".log") and os.path.getsize(os.path.join(src, f)) > 200000:
             continue
-        if os.path.isfile(os.path.join(src, f)):
+        if os.path.isfile(os.path.join(src, f)) and f != "meta.json" and os.path.abspath(src) != os.path.abspath(dst):
             shutil.copyfile(os.path.join(src, f), os.path.join(dst, f))
     json.dump(meta, open(os.path.join(dst, "meta.json"), "w"), indent=1, ensure_ascii=False)
     print(json.dumps(meta, indent=1, ensure_ascii=False)[:3000])
